@@ -34,12 +34,12 @@ META = {
                  "of Sec-WebSocket-Accept, negotiated-subset check for subprotocol/extension; client side incl. a python -O shard",
     "level_text": "Single-dimension sweeps, all pairs and random combinations of {absent, empty, valid, case variants, "
                   "malformed} values for Upgrade, Connection, Sec-WebSocket-Key, Sec-WebSocket-Version, Host x Origin shapes "
-                  "(same, other host, other port, prefix/suffix look-alikes, userinfo, upper-case, trailing dot, null) x "
+                  "(same, other host, other port, port named on one side only, prefix/suffix look-alikes, userinfo, upper-case, trailing dot, null) x "
                   "check_origin overrides x subprotocol offers x selection policies x extension offers x compression "
                   "enabled/disabled are sent to the real server; mutated 101 responses are sent to the real client, under "
                   "normal python and under python -O.",
     "level_note": "UNSPECIFIED (executed, safety half only): Connection values that are not plain comma-separated token "
-                  "lists, versions 7/8, malformed keys, missing Host, Origin with explicit default port / userinfo / "
+                  "lists, versions 7/8, malformed keys, missing Host, Origin with explicit default port (and a portless Origin against a Host that spells out :80/:443) / userinfo / "
                   "trailing dot / upper-case Host / empty, invalid deflate parameter values, application selecting an "
                   "unoffered subprotocol.",
     "design_ref": "DESIGN.md §4 C17",
@@ -53,6 +53,7 @@ FLOORS = {"quick": 2000, "thorough": 60000}
 ASSUMPTIONS = ["labels A/R/U are fixed by the generator from RFC 6455 section 4 restricted to what the statement pins",
                "virtual loop over AF_UNIX"]
 REQUIRED_COUNTERS = ["oracle_evals", "server_must_accept", "server_must_reject", "server_101_checked",
+                     "origin_port_presence_differs_from_host/must-reject",
                      "client_must_accept", "client_must_reject", "client_cases_under_O"]
 
 H0 = "127.0.0.1:9999"
@@ -78,6 +79,7 @@ def key_variants(rng):
 
 
 HOSTS = [("A", "127.0.0.1:9999"), ("A", "example.com"), ("A", "example.com:8080"), ("A", "[::1]:8080"),
+         ("A", "example.com:80"), ("A", "localhost:443"),
          ("U", "EXAMPLE.com"), ("U", None), ("U", "")]
 
 
@@ -102,7 +104,20 @@ def origin_variants(host):
            ("U", "http://" + h, "Sec-WebSocket-Origin"), ("U", "http://evil.com", "Sec-WebSocket-Origin")]
     if not port:
         out.append(("U", "http://" + h + ":80", "Origin"))
+        out.append(("U", "https://" + h + ":443", "Origin"))
         out.append(("R", "http://" + h + ":8080", "Origin"))
+        out.append(("R", "https://" + h + ":8443", "Origin"))
+    else:
+        # the converse: Origin without a port (= the scheme's default port) against a Host that names its port.
+        # "host and port equal the Host header": a port other than 80/443 can equal no scheme's default => refuse;
+        # Host spelling out 80/443 is the same port only under default-port equivalence, which is not pinned.
+        lab = "U" if port in ("80", "443") else "R"
+        for scheme in ("http", "https", "ws", "wss"):
+            out.append((lab, scheme + "://" + name, "Origin"))
+        out.append((lab, "http://" + name + "/", "Origin"))
+        out.append((lab, "https://" + name + "/app/index.html", "Origin"))
+        out.append((lab, "http://" + name.upper(), "Origin"))
+        out.append((lab, "http://" + name + ":", "Origin"))           # empty port
     return out
 
 
@@ -384,6 +399,13 @@ def judge_server(case, r, ctx, lm):
         labels["protocols"] = "U"
     lab = overall(labels.values())
     accepted = r["status"] == 101
+    if case["override"] is None and case["origin"][1] and case["host"][0] == "A" and case["origin"][2] == "Origin":
+        onet = case["origin"][1].partition("://")[2].partition("/")[0]
+        hport = case["host"][1].rpartition("]")[2].partition(":")[2]
+        oport = onet.rpartition("]")[2].partition(":")[2]
+        if "@" not in onet and bool(hport) != bool(oport):
+            ctx.count("origin_port_presence_differs_from_host/" + {"A": "must-accept", "R": "must-reject",
+                                                                   "U": "unspecified"}[case["origin"][0]])
     wit = {"request": r["request"], "labels": labels, "status": r["first"], "response_headers": r["headers"],
            "policy": pol, "compress": case["compress"], "override": case["override"], "returned": r["returned"]}
     offdims = sorted(d for d, v in labels.items() if v != "A")
